@@ -166,14 +166,30 @@ fn steps(input: &str, out: &str, maxsteps: usize, maxlimbs: usize, work: &str, j
     w.flush().unwrap();
 }
 
-/// strip the tool's own log lines: program output starts after "==> running code\n"
+/// strip the tool's own log lines: everything up to and including the last leading line that
+/// starts with "==> " (the wording of the log lines is not relied upon)
 fn after_running(stdout: &[u8]) -> (Vec<u8>, bool) {
-    let marker = b"==> running code\n";
-    if let Some(p) = stdout.windows(marker.len()).position(|w| w == marker) {
-        (stdout[p + marker.len()..].to_vec(), true)
-    } else {
-        (Vec::new(), false)
+    let mut pos = 0usize;
+    let mut seen = false;
+    loop {
+        let rest = &stdout[pos..];
+        if rest.starts_with("==> ".as_bytes()) || rest.starts_with("⮑".as_bytes()) {
+            match rest.iter().position(|b| *b == b'\n') {
+                Some(nl) => {
+                    pos += nl + 1;
+                    seen = true;
+                }
+                None => {
+                    pos = stdout.len();
+                    seen = true;
+                    break;
+                }
+            }
+        } else {
+            break;
+        }
     }
+    (stdout[pos..].to_vec(), seen)
 }
 
 #[allow(clippy::too_many_arguments)]
